@@ -22,7 +22,7 @@ import (
 
 func init() {
 	register(&Prop{ID: "C04", Level: "model_checking", Run: runC04, Replay: replayC04,
-		Workers: func(e *Env) int { return minInt(cpus(), 16) }, Procs: 1, CrashIsViolation: true,
+		Workers: func(e *Env) int { return c04TaskCount(e.Thorough()) }, Procs: 1, CrashIsViolation: true,
 		Budget: func(t string) time.Duration {
 			if t == "thorough" {
 				return 25 * time.Minute
@@ -372,30 +372,42 @@ func runC04(r *mc.Report, e *Env) {
 	unit := 0
 	for _, node := range nodes {
 		for _, start := range []string{"empty", "populated-reopened", "after-prune"} {
-			unit++
-			if !e.Mine(unit) {
-				continue
+			// one short-lived worker process per task (prune() leaks a pebble iterator per call):
+			// a depth-2 unit is one task, a depth-3 unit one task per first event
+			prefixes := [][]string{nil}
+			if depth[start] >= 3 {
+				prefixes = nil
+				for _, ev := range evs {
+					prefixes = append(prefixes, []string{ev})
+				}
 			}
-			b := &mc.BFS{Starts: [][]string{{start}}, MaxDepth: depth[start], Par: 1, Deadline: e.Deadline,
-				Events: func([]string) []string { return evs },
-				Exec: func(h []string) (string, bool) {
-					if !e.Mark(func() string { b, _ := json.Marshal(c04Case{Node: node, Hist: h, Kind: "bfs"}); return string(b) }) {
-						return "", false
-					}
-					return c04Exec1(r, node, h, "bfs")
-				}}
-			b.Run()
-			r.States += b.States
-			r.Transitions += b.Transitions
-			r.Depth(b.Depth)
-			r.Evaluations += b.Transitions
-			for s := range b.Seen {
-				r.Digests[node+start+s] = struct{}{}
+			for _, prefix := range prefixes {
+				unit++
+				if e.Of > 1 && e.Shard != unit-1 {
+					continue
+				}
+				b := &mc.BFS{Starts: [][]string{append([]string{start}, prefix...)}, MaxDepth: depth[start] - len(prefix), Par: 1, Deadline: e.Deadline,
+					Events: func([]string) []string { return evs },
+					Exec: func(h []string) (string, bool) {
+						if !e.Mark(func() string { b, _ := json.Marshal(c04Case{Node: node, Hist: h, Kind: "bfs"}); return string(b) }) {
+							return "", false
+						}
+						return c04Exec1(r, node, h, "bfs")
+					}}
+				b.Run()
+				b.Transitions += int64(len(prefix))
+				r.States += b.States
+				r.Transitions += b.Transitions
+				r.Depth(b.Depth + len(prefix))
+				r.Evaluations += b.Transitions
+				for s := range b.Seen {
+					r.Digests[node+start+s] = struct{}{}
+				}
+				if !b.Complete {
+					r.NotExhaustive("internal deadline reached during BFS")
+				}
+				r.Count(fmt.Sprintf("transitions_%s_%s_depth%d", node, start, depth[start]), b.Transitions)
 			}
-			if !b.Complete {
-				r.NotExhaustive("internal deadline reached during BFS")
-			}
-			r.Set("bfs_"+node+"_"+start, map[string]any{"depth": b.Depth, "states": b.States, "transitions": b.Transitions, "complete": b.Complete})
 		}
 	}
 	if e.Shard == 0 {
@@ -414,7 +426,7 @@ func runC04(r *mc.Report, e *Env) {
 		for _, val := range []string{"k3", "b100", "b8"} {
 			for _, pre := range [][]string{{"put:A:" + val, "get:A"}, {"put:A:" + val, "flush", "get:A"}, {"put:A:" + val, "churn", "get:A"}} {
 				unit++
-				if !e.Mine(unit) {
+				if e.Of > 1 && e.Shard != unit-1 {
 					continue
 				}
 				var rec func(h []string, left int)
@@ -439,6 +451,14 @@ func runC04(r *mc.Report, e *Env) {
 		}
 	}
 	r.Count("live_slice_sequences", int64(n))
+}
+
+func c04TaskCount(thorough bool) int {
+	n := 9 // BFS units at depth 2
+	if thorough {
+		n = 9 * len(c04Events())
+	}
+	return n + 18 // live-slice units
 }
 
 func replayC04(r *mc.Report, e *Env, raw json.RawMessage) {
